@@ -62,3 +62,14 @@ pub fn complete_elf32_nb3_nl2_n3_present() {
 pub fn complete_elf32_nb3_nl2_n3_absent() {
     gnu_complete::<3, 2, 3, 2>(Class::ELF32, true);
 }
+
+#[kani::proof]
+#[kani::unwind(8)]
+pub fn complete_elf32_nb1_nl1_n2_present() {
+    gnu_complete::<1, 1, 2, 1>(Class::ELF32, false);
+}
+#[kani::proof]
+#[kani::unwind(8)]
+pub fn complete_elf32_nb1_nl1_n2_absent() {
+    gnu_complete::<1, 1, 2, 1>(Class::ELF32, true);
+}
